@@ -3,6 +3,7 @@ package main
 import (
 	"fmt"
 	"go/token"
+	"go/types"
 	"strings"
 
 	"golang.org/x/tools/go/ssa"
@@ -105,6 +106,45 @@ func c18(r *Run) {
 	}
 	if len(findIns(setN, func(i ssa.Instruction) bool { return atomicOn(i, "Store", fStatus) })) == 0 {
 		r.ob("C18.R2:resize-resets-status", "changing the size marks the pool uninitialized", setN, nil, false, "no Store(status)", false)
+	}
+
+	// every valid SetNumLoops takes effect: the size is stored and the status reset on every path with numLoops >= 1
+	{
+		valid := func(v ssa.Value) (bool, bool) {
+			b, ok := v.(*ssa.BinOp)
+			if !ok {
+				return false, false
+			}
+			if p, isP := b.X.(*ssa.Parameter); isP && p.Parent() == setN && isConstEq(1)(b.Y) {
+				switch b.Op {
+				case token.LSS:
+					return false, true
+				case token.GEQ:
+					return true, true
+				}
+			}
+			return false, false
+		}
+		starts := edgesEstablishing(setN, valid)
+		r.mustPass("C18.R2:resize-always-stored", "every valid SetNumLoops stores the requested size (it is compared with nothing but the lower bound): a later Pick brings the pool to exactly the last configured size", setN, nil, starts, func(i ssa.Instruction) bool { return atomicOn(i, "Store", fNum) }, nil, nil, "Store(numLoops) on every path with numLoops >= 1")
+		r.mustPass("C18.R2:resize-always-resets", "every valid SetNumLoops marks the pool uninitialized", setN, nil, starts, func(i ssa.Instruction) bool { return atomicOn(i, "Store", fStatus) }, nil, nil, "Store(status) on every path with numLoops >= 1")
+	}
+	// the round-robin counter does not wrap in practice: at least 64 bits wide on 64-bit targets
+	{
+		rr := w.NamedType("roundRobinLB").Underlying().(*types.Struct)
+		okW, tname := false, "?"
+		for i := 0; i < rr.NumFields(); i++ {
+			if rr.Field(i).Name() == "accepted" {
+				tname = rr.Field(i).Type().String()
+				if b, ok := rr.Field(i).Type().Underlying().(*types.Basic); ok {
+					switch b.Kind() {
+					case types.Uintptr, types.Uint64, types.Int64, types.Uint, types.Int:
+						okW = true
+					}
+				}
+			}
+		}
+		r.ob("C18.R4:counter-width", "the round-robin counter is a machine-word (64-bit) integer: a 32-bit counter wraps after 2^32 picks and breaks the even rotation for pool sizes that are not a power of two", nil, nil, okW, "accepted "+tname, false)
 	}
 
 	// ---- R3 Run ---------------------------------------------------------------------------------------
